@@ -438,6 +438,9 @@ impl AsyncWrite for SimStream {
 pub struct ConnectPlan {
     pub delay_ms: u64,
     pub refuse: bool,
+    /// The connection is accepted, but its set-up on the server side (what
+    /// a TLS handshake would be) fails: the accept future resolves to `Err`.
+    pub fail_setup: bool,
     pub client_cfg: PipeCfg,
     pub server_cfg: PipeCfg,
 }
@@ -447,6 +450,7 @@ impl Default for ConnectPlan {
         ConnectPlan {
             delay_ms: 0,
             refuse: false,
+            fail_setup: false,
             client_cfg: PipeCfg::default(),
             server_cfg: PipeCfg::default(),
         }
@@ -458,6 +462,7 @@ pub struct Accepted {
     pub ctl: LinkCtl,
     pub peer: SocketAddr,
     pub index: usize,
+    pub fail_setup: bool,
 }
 
 struct ListenerInner {
@@ -574,6 +579,7 @@ impl SimConnector {
                 ctl,
                 peer: self.client_addr,
                 index,
+                fail_setup: plan.fail_setup,
             });
             g.waker.take()
         };
@@ -978,7 +984,11 @@ impl domain::net::server::sock::AsyncAccept for SimListener {
         match self.poll_accept_sim(cx) {
             Poll::Pending => Poll::Pending,
             Poll::Ready(Some(a)) => {
-                ev!("net {} accepted connection #{} from {}", self.name, a.index, a.peer);
+                ev!("net {} accepted connection #{} from {}{}", self.name, a.index, a.peer, if a.fail_setup { " (set-up fails)" } else { "" });
+                if a.fail_setup {
+                    sim::stat("fault.connection_setup_failed");
+                    return Poll::Ready(Ok((std::future::ready(Err(io::Error::new(io::ErrorKind::InvalidData, "simulated handshake failure"))), a.peer)));
+                }
                 Poll::Ready(Ok((std::future::ready(Ok(a.stream)), a.peer)))
             }
             // A closed listener never yields again.
